@@ -20,6 +20,8 @@ def gen_cases(tier):
             pr, schema = mixed2(rng) or pr, "mixed2"
         if i % 9 == 7 and (i // 9) % 3 == 1:
             pr, schema = circular(rng) or pr, "circular"
+        if i % 9 == 7 and (i // 9) % 3 == 2:
+            pr, schema = split_equality(rng) or pr, "split_equality"
         if pr is None:
             continue
         d1, d2, swap = pr
@@ -32,6 +34,8 @@ def gen_cases(tier):
             cfgs.append((rng.choice(gen.keep_choices(rng, d1, d2)), rng.random() < 0.5, o))
         if tier == "quick":
             cfgs = rng.sample(cfgs, min(4, len(cfgs)))
+        if schema == "split_equality":
+            cfgs = [([], True, None), ([], False, None), ([], True, [2, 1]), ([], True, gen.rorder(rng))]
         if schema == "circular":
             cfgs = [([], True, None), ([], False, None), ([], False, [4]), ([], True, [1, 2])]
         if schema == "mixed2":
@@ -73,6 +77,27 @@ def circular(rng):
     d1 = {"inv": ["i"], "outv": ["x"], "a": [({"i": sg}, rng.randint(4, 8))] if rng.random() < 0.5 else [],
           "g": [({"x": sg, "i": -sg}, rng.randint(2, 5))] if weak else [({"x": -sg, "i": sg}, 0)]}
     d2 = {"inv": ["x", "j"], "outv": ["o"], "a": [({"x": sg}, k)], "g": [({"x": sg, "j": -sg}, 0), ({"o": 1, "j": -1}, rng.randint(0, 2))]}
+    try:
+        gen.mk_contract(d1), gen.mk_contract(d2)
+    except ValueError:
+        return None
+    return d1, d2, rng.random() < 0.5
+
+
+def split_equality(rng):
+    """The two halves of an equality split across the contracts: the producer assumes (or guarantees) the upper bound  a.x <= b , the
+    consumer assumes the lower bound written at ANOTHER SCALE ( -m a.x <= -m b ): a negative multiple of a context term is the opposite
+    half-space, not a copy of it."""
+    b, m, k = rng.randint(0, 3), rng.choice([1, 2, 3]), rng.choice([1, 2])
+    sg = rng.choice([1, -1])
+    if rng.random() < 0.5:
+        # on a shared input
+        d1 = {"inv": ["i"], "outv": ["o"], "a": [({"i": sg * k}, sg * k * b)], "g": [({"o": 1, "i": -1}, rng.randint(0, 3))]}
+        d2 = {"inv": ["i", "o"], "outv": ["p"], "a": [({"i": -sg * m}, -sg * m * b)], "g": [({"p": 1, "o": -1}, 0)]}
+    else:
+        # on the producer's output
+        d1 = {"inv": ["i"], "outv": ["o"], "a": [({"i": 1}, 5)] if rng.random() < 0.5 else [], "g": [({"o": sg * k}, sg * k * b), ({"o": -1, "i": 1}, 9)]}
+        d2 = {"inv": ["o"], "outv": ["p"], "a": [({"o": -sg * m}, -sg * m * b)], "g": [({"p": 1, "o": -1}, 0)]}
     try:
         gen.mk_contract(d1), gen.mk_contract(d2)
     except ValueError:
